@@ -260,6 +260,18 @@ func (d *driver) exec(st step) {
 			d.c.Count("requests_not_sent_while_call_parked", 1)
 			break
 		}
+		returned := false
+		select {
+		case <-cl.done:
+			returned = true // e.g. cancelled before it got round to sending
+		default:
+		}
+		if returned {
+			if _, ok := w.nthRequest(cl.addr, cl.reqIndex, 0); !ok {
+				d.c.Count("requests_never_sent", 1)
+				break
+			}
+		}
 		if _, ok := w.nthRequest(cl.addr, cl.reqIndex, hardLimit); !ok {
 			select {
 			case <-w.served:
